@@ -181,13 +181,24 @@ def _no_total_near(fi, st, totals):
   outer = loops_w[0] if loops_w else st
   last = max(getattr(n, 'lineno', 0) for n in ast.walk(outer))
   for (st2, _t2, _v2, _op2) in totals:
-    if inner is not None and any(x is st2 for x in ast.walk(inner)):
-      return False
+    if loops_w and any(x is st2 for x in ast.walk(outer)):
+      return False        # anywhere in the loop nest of the store (say, once per piece after the inner loop over its notes)
     if getattr(st2, 'lineno', 0) > last:
       return False
   base = norm_text(totals[0][1].value) if totals else None
+  # helpers (nested or of the module) that write a total_time: a call of one of them is total_time maintenance too
+  writers = set(f.name for f in ast.walk(fi.node) if isinstance(f, ast.FunctionDef) and f is not fi.node and
+                any(isinstance(t, ast.Attribute) and t.attr == 'total_time' and isinstance(t.ctx, ast.Store) for t in ast.walk(f)))
+  writers |= set(q for q, g in fi.module.functions.items() if any(isinstance(t, ast.Attribute) and t.attr == 'total_time' and isinstance(t.ctx, ast.Store) for t in ast.walk(g.node)))
   for c in ast.walk(fi.node):
-    if isinstance(c, ast.Call) and getattr(c, 'lineno', 0) > last and base is not None and any(norm_text(a) == base for a in c.args):
+    if not isinstance(c, ast.Call):
+      continue
+    near = (loops_w and any(x is c for x in ast.walk(outer))) or getattr(c, 'lineno', 0) > last
+    if not near:
+      continue
+    if isinstance(c.func, ast.Name) and c.func.id in writers:
+      return False
+    if getattr(c, 'lineno', 0) > last and base is not None and any(norm_text(a) == base for a in c.args):
       return False
   return True
 
@@ -335,3 +346,4 @@ RENAME_FUNCS = [(F, n) for n in own.RETURNS_NEW]
 EXPLANATION += (' Additions: PAIR/merge-scalars definite form (a covering scalar copied from one input selected by another field), PAIR/recomputed-total shared with C10.')
 EXPLANATION += (' Round 6: ' + "OWN/classified: a new private helper of sequences_lib is analysed through the contract functions that call it; a new public function is 'cannot classify'.")
 EXPLANATION += (' Round 7: ' + 'WELLFORMED/no-negative-event-stored and WELLFORMED/reversed-rejected (scenarios shared with C13).')
+EXPLANATION += (' Rounds 9-10: ' + 'PAIR/end-total is located when nothing in the loop of an end_time store, and nothing after it, writes total_time.')
